@@ -12,7 +12,8 @@ package main
 // Independent of the model, every `cmp` line with a numeric literal also checks the PROPERTY on the real code:
 // (1) the search-clause answer equals the comparison BY VALUE (exact big.Rat arithmetic: an integer literal
 // denotes its integer, any other literal the float64 it parses to; integers and float64 records denote their exact
-// values; a record that is not a number satisfies only !=); (2) the block range index the real writer built for
+// values, a stored string in number syntax the float64 it reads as; a record that is not a number satisfies only !=);
+// (2) the block range index the real writer built for
 // the value does not skip the block when the value satisfies the comparison; (3) the where stage gives the same
 // answer as the search clause on numeric fields.
 
@@ -61,7 +62,9 @@ func cmpkFop(op string) (sutils.FilterOperator, bool) {
 
 var cmpkTextRe = regexp.MustCompile(`^[+-]?([0-9]+(\.[0-9]*)?|\.[0-9]+)([eE][+-]?[0-9]{1,3})?$`)
 var cmpkSplRe = regexp.MustCompile(`^[+-]?([0-9]+|[0-9]*\.[0-9]+)$`) // spl.peg: FloatAsString / IntegerAsString
-var cmpkNumStrRe = regexp.MustCompile(`^-?[0-9]+(\.[0-9]+)?$`)
+
+// a string in number syntax (what utils.FastParseFloat accepts)
+var cmpkNumStrRe = regexp.MustCompile(`^[+-]?([0-9]+(\.[0-9]*)?|\.[0-9]+)([eE][+-]?[0-9]+)?$`)
 var cmpkIntTextRe = regexp.MustCompile(`^[+-]?[0-9]+$`)
 
 // the number texts both sides accept (same limits as Oracle.C02K.parseText)
@@ -170,6 +173,9 @@ func cmpkParseRec(tok string) (*cmpkRec, bool) {
 			b, err := hex.DecodeString(body)
 			if err != nil || len(b) >= 65536 {
 				return nil, false
+			}
+			if cmpkNumStrRe.Match(b) && !cmpkTextOK(string(b)) {
+				return nil, false // number syntax beyond the modelled limits (same as for literal texts)
 			}
 			r.kind, r.s = 's', b
 			vv = writer.VerifVal{Kind: 's', Str: b}
@@ -341,10 +347,10 @@ func cmpkStoredVal(r *cmpkRec) (*big.Rat, string) {
 	case 'f':
 		return new(big.Rat).SetFloat64(r.f), "float"
 	case 's':
+		// a string in number syntax denotes the float64 it reads as (what `| where` and the statistics read)
 		if cmpkNumStrRe.Match(r.s) {
-			v, ok := new(big.Rat).SetString(string(r.s))
-			if ok {
-				return v, "numstr"
+			if f, err := strconv.ParseFloat(string(r.s), 64); err == nil && !math.IsInf(f, 0) && !math.IsNaN(f) {
+				return new(big.Rat).SetFloat64(f), "numstr"
 			}
 		}
 		return nil, "str"
@@ -434,9 +440,11 @@ var cmpkTol = new(big.Rat).SetFrac64(10001, 100000000) // a hair above 1e-4
 func cmpkClass(kind string, sv *big.Rat, text string, op string) string {
 	lv, lf, _ := cmpkLitVal(text)
 	typed := cmpkLitTyped(text, lf)
-	floatDomain := kind == "float" || typed == "flt"
+	floatDomain := kind == "float" || kind == "numstr" || typed == "flt"
 	lfr := new(big.Rat).SetFloat64(lf)
 	switch {
+	case kind == "numstr" && typed == "int" && cmpkAbs(lv).Cmp(cmpkTwo53) > 0:
+		return "float-vs-int-literal-beyond-2^53" // the record is the float64 the text reads as
 	case kind == "numstr":
 		return "numeric-string-not-compared-by-value"
 	case kind == "uint" && typed == "int" && lv.Sign() < 0:
